@@ -74,7 +74,54 @@ def _fit(x, width):
     return x.trunc(width) if len(x) >= width else None
 
 
+class _EnvView:
+    def __init__(self, log, ref, sym_facts):
+        self.log, self.ref, self.sym_facts = log, ref, sym_facts
+
+
+def _syms(t, out):
+    stack = [t]
+    while stack:
+        x = stack.pop()
+        if not isinstance(x, tuple) or not x:
+            continue
+        if x[0] == 's':
+            out.add(x)
+            # an element symbol depends on its index term
+            if x[3] and x[3][0] == 'elem' and isinstance(x[3][2], tuple):
+                stack.append(x[3][2])
+        elif x[0] == 'o':
+            stack.extend(x[3:])
+    return out
+
+
+def relevant(env, terms):
+    """the part of a path condition that can matter for `terms`: assumptions connected to their symbols through shared
+    symbols.  Dropping the rest only weakens the hypothesis (a proof found this way is a proof), and keeps the canonical
+    forms small on long paths"""
+    log = getattr(env, 'log', ())
+    if len(log) <= 10:
+        return env
+    seen = set()
+    for t in terms:
+        _syms(t, seen)
+    items = [(k, t, v, _syms(t, set())) for k, t, v in log if isinstance(t, tuple) and t and t[0] in ('s', 'o')]
+    used = [False] * len(items)
+    changed = True
+    while changed:
+        changed = False
+        for i, (k, t, v, ss) in enumerate(items):
+            if not used[i] and ss & seen:
+                used[i] = True
+                if not ss <= seen:
+                    seen |= ss
+                changed = True
+    return _EnvView([(k, t, v) for i, (k, t, v, ss) in enumerate(items) if used[i]],
+                    {t: av for t, av in env.ref.items() if t in seen}, env.sym_facts)
+
+
 def equal_under(t1, t2, env, width):
+    env = relevant(env, (t1, t2))
     try:
         m, conv, K = _setup(env, atoms=True)
         a, b = _fit(conv(t1), width), _fit(conv(t2), width)
@@ -87,6 +134,7 @@ def equal_under(t1, t2, env, width):
 
 
 def const_diff_under(t1, t2, env, width):
+    env = relevant(env, (t1, t2))
     try:
         m, conv, K = _setup(env, atoms=True)
         a, b = _fit(conv(t1), width), _fit(conv(t2), width)
